@@ -119,4 +119,3 @@ func cmdFunc(args []string) {
 	}
 }
 
-func cmdCheck(args []string) int { return 2 }
